@@ -1,4 +1,4 @@
-import GeomV.C05.GenLibS
+import GeomV.C05.GenLibW
 /-!
 REGENERATED on every run of `bin/check C05` by harness/cmd/c05/extract.go from encoding/wkb/*.go and
 encoding/hex/hex.go of the tree under test — do not edit.  `GeomV/C05/Tie.lean` proves these definitions
@@ -337,6 +337,95 @@ def ReadS {σ : Type} (S : Stream.Src σ) (Read : ReadFnS σ) (bs : σ) : Except
 def readS {σ : Type} (S : Stream.Src σ) : Nat → ReadFnS σ
   | 0 => fun _ => .error (.wkb .fuel)
   | fuel+1 => ReadS S (readS S fuel)
+
+/-! ### the writing path call by call: the same Go functions with the `io.Writer` as ANY writer state machine
+`K : Sink.Sink σ` (every `binary.Write` = ONE `K.put` of the value's encoding; an error carries the writer state reached: `GenLibW.lean`) -/
+
+/-- `encoding/wkb/geometrycollection.go`: `func(w io.Writer, byteOrder binary.ByteOrder, geometryCollection geom.GeometryCollection) …` as `writeGeometryCollection` -/
+def writeGeometryCollectionW {σ : Type} (K : Sink.Sink σ) (Write : WriteFnW σ) (w : σ) (byteOrder : BO) (geometryCollection : List BGeom) : Except (σ × Sink.WErr) σ := do
+  let w ← binWriteU32W K w byteOrder (u32len geometryCollection.length)
+  let w ← forRangeW geometryCollection w (fun geom w => do
+      let w ← Write w byteOrder geom
+      pure w)
+  pure w
+
+/-- `encoding/wkb/point.go`: `func(w io.Writer, byteOrder binary.ByteOrder, points []geom.Point) error` as `writePoints` -/
+def writePointsW {σ : Type} (K : Sink.Sink σ) (w : σ) (byteOrder : BO) (points : List (Pt UInt64)) : Except (σ × Sink.WErr) σ := do
+  let w ← binWriteU32W K w byteOrder (u32len points.length)
+  binWritePointsW K w byteOrder points
+
+/-- `encoding/wkb/linestring.go`: `func(w io.Writer, byteOrder binary.ByteOrder, lineString geom.LineString) error` as `writeLineString` -/
+def writeLineStringW {σ : Type} (K : Sink.Sink σ) (w : σ) (byteOrder : BO) (lineString : List (Pt UInt64)) : Except (σ × Sink.WErr) σ := do
+  writePointsW K w byteOrder lineString
+
+/-- `encoding/wkb/multilinestring.go`: `func(w io.Writer, byteOrder binary.ByteOrder, multiLineString geom.MultiLineString) error` as `writeMultiLineString` -/
+def writeMultiLineStringW {σ : Type} (K : Sink.Sink σ) (Write : WriteFnW σ) (w : σ) (byteOrder : BO) (multiLineString : List (List (Pt UInt64))) : Except (σ × Sink.WErr) σ := do
+  let w ← binWriteU32W K w byteOrder (u32len multiLineString.length)
+  let w ← forRangeW multiLineString w (fun lineString w => do
+      let w ← Write w byteOrder (.lineString lineString)
+      pure w)
+  pure w
+
+/-- `encoding/wkb/multipoint.go`: `func(w io.Writer, byteOrder binary.ByteOrder, multiPoint geom.MultiPoint) error` as `writeMultiPoint` -/
+def writeMultiPointW {σ : Type} (K : Sink.Sink σ) (Write : WriteFnW σ) (w : σ) (byteOrder : BO) (multiPoint : List (Pt UInt64)) : Except (σ × Sink.WErr) σ := do
+  let w ← binWriteU32W K w byteOrder (u32len multiPoint.length)
+  let w ← forRangeW multiPoint w (fun point w => do
+      let w ← Write w byteOrder (.point point)
+      pure w)
+  pure w
+
+/-- `encoding/wkb/multipolygon.go`: `func(w io.Writer, byteOrder binary.ByteOrder, multiPolygon geom.MultiPolygon) error` as `writeMultiPolygon` -/
+def writeMultiPolygonW {σ : Type} (K : Sink.Sink σ) (Write : WriteFnW σ) (w : σ) (byteOrder : BO) (multiPolygon : List (List (List (Pt UInt64)))) : Except (σ × Sink.WErr) σ := do
+  let w ← binWriteU32W K w byteOrder (u32len multiPolygon.length)
+  let w ← forRangeW multiPolygon w (fun polygon w => do
+      let w ← Write w byteOrder (.polygon polygon)
+      pure w)
+  pure w
+
+/-- `encoding/wkb/point.go`: `func(w io.Writer, byteOrder binary.ByteOrder, point geom.Point) error` as `writePoint` -/
+def writePointW {σ : Type} (K : Sink.Sink σ) (w : σ) (byteOrder : BO) (point : Pt UInt64) : Except (σ × Sink.WErr) σ := do
+  binWritePointW K w byteOrder point
+
+/-- `encoding/wkb/point.go`: `func(w io.Writer, byteOrder binary.ByteOrder, pointss []geom.Path) error` as `writePointss` -/
+def writePointssW {σ : Type} (K : Sink.Sink σ) (w : σ) (byteOrder : BO) (pointss : List (List (Pt UInt64))) : Except (σ × Sink.WErr) σ := do
+  let w ← binWriteU32W K w byteOrder (u32len pointss.length)
+  let w ← forRangeW pointss w (fun points w => do
+      let w ← writePointsW K w byteOrder points
+      pure w)
+  pure w
+
+/-- `encoding/wkb/polygon.go`: `func(w io.Writer, byteOrder binary.ByteOrder, polygon geom.Polygon) error` as `writePolygon` -/
+def writePolygonW {σ : Type} (K : Sink.Sink σ) (w : σ) (byteOrder : BO) (polygon : List (List (Pt UInt64))) : Except (σ × Sink.WErr) σ := do
+  writePointssW K w byteOrder polygon
+
+/-- `encoding/wkb/wkb.go`: `func(w io.Writer, byteOrder binary.ByteOrder, g geom.Geom) error` as `Write` -/
+def WriteW {σ : Type} (K : Sink.Sink σ) (Write : WriteFnW σ) (w : σ) (byteOrder : BO) (g : BGeom) : Except (σ × Sink.WErr) σ := do
+  let wkbByteOrder ← liftW w (if byteOrder = XDR then pure wkbXDR else if byteOrder = NDR then pure wkbNDR else throw Err.badOrder : Except Err Nat)
+  let w ← binWriteU8W K w byteOrder wkbByteOrder
+  let wkbGeometryType ← liftW w (match g with
+    | .point _ => pure wkbPoint
+    | .lineString _ => pure wkbLineString
+    | .polygon _ => pure wkbPolygon
+    | .multiPoint _ => pure wkbMultiPoint
+    | .multiLineString _ => pure wkbMultiLineString
+    | .multiPolygon _ => pure wkbMultiPolygon
+    | .collection _ => pure wkbGeometryCollection
+    | _ => throw Err.unsupported : Except Err Nat)
+  let w ← binWriteU32W K w byteOrder wkbGeometryType
+  match g with
+  | .point g' => writePointW K w byteOrder g'
+  | .lineString g' => writeLineStringW K w byteOrder g'
+  | .polygon g' => writePolygonW K w byteOrder g'
+  | .multiPoint g' => writeMultiPointW K Write w byteOrder g'
+  | .multiLineString g' => writeMultiLineStringW K Write w byteOrder g'
+  | .multiPolygon g' => writeMultiPolygonW K Write w byteOrder g'
+  | .collection g' => writeGeometryCollectionW K Write w byteOrder g'
+  | _ => throwW w Err.unsupported
+
+/-- `wkb.Write` on any writer, call by call, the recursion unrolled `fuel` times -/
+def writeW {σ : Type} (K : Sink.Sink σ) : Nat → WriteFnW σ
+  | 0 => fun w _ _ => throwW w Err.fuel
+  | fuel+1 => WriteW K (writeW K fuel)
 
 /-! The recursion Read → reader → Read and Write → writer → Write, unrolled (fixed text of the translator). -/
 
